@@ -2,7 +2,8 @@
 withRelayRetry, addResult with the per-peer failure hysteresis and its two log lines, the protocol list built by
 WithDelimitedProtocol, the send time-out / stream deadline, the RTT callback), p2p/receive.go (RegisterHandler: what the
 stream handler does with one inbound stream: read deadline and context, protonil check, handler result -> response or not,
-error paths, Close) and p2p/gater.go (ConnGater / open gater, MutablePeer relays).
+error paths, Close), p2p/gater.go (ConnGater / open gater, MutablePeer relays) and p2p/relay.go (NewRelayReserver with the
+exponential back-off of app/expbackoff, NewRelayRouter) against a scripted relay.
 
 Not a registered check: `stage(o, tier, seed)` runs the family as a stage (the Outcome `o` collects coverage and
 violations); `main(tier, seed)` is a stand-alone driver, `replay(path)` re-runs a replay file."""
@@ -29,7 +30,10 @@ RULE = ("P2PSender family: schedules = timed stimuli on a 4-host in-memory libp2
         "a seeded random generator aiming at the hysteresis (runs of failures / successes per peer, dial errors, two peers "
         "interleaved), the deadlines (before / at / after) and the gater.  Executed on the real code inside testing/synctest (virtual "
         "time, exact); every trace validated by P2PSenderTrace.tla; Sender.addResult's real granularity is model-checked separately "
-        "(AddResultFine.tla) and its race probed on the real code")
+        "(AddResultFine.tla) and its race probed on the real code.  Second part (RelayLoop.tla): the real NewRelayReserver / "
+        "NewRelayRouter hooks with the real expbackoff and libp2p's circuit-v2 client against a scripted relay (grant until ... / "
+        "refuse / reset / expiration in the past, in runs), the relay's MutablePeer set late, connection and link to the relay cut, "
+        "context ended, samples of the peer store's relay routes; validated by RelayLoopTrace.tla")
 ASSUMPTIONS = [
     "testing/synctest virtual time stands in for real time; the wrapped mocknet streams are the network of the specification "
     "(they implement the stream deadlines, which mocknet ignores, and the scripted fates)",
@@ -41,6 +45,9 @@ ASSUMPTIONS = [
     "the connection gaters are consulted by the wrapped host in libp2p's order (peer dial, addr dial, accept, secured, upgraded) "
     "whenever a connection has to be made; mocknet's own gater hook is not usable (unexported option, and its rejection path "
     "leaves a goroutine blocked on a mutex)",
+    "relay part: reservations are granted for more than the 2 min refresh margin (a shorter grant makes NewRelayReserver "
+    "re-reserve at once, for ever -- observation, not judged); circuit.Reserve takes no virtual time; back-off delays are judged "
+    "with expbackoff.DefaultConfig (1 s, x1.6, +-20 %, max 120 s) and one microsecond of slack",
     "the log lines of the stream handler are accepted when they match the session's fate but are not demanded (the doc comments "
     "do not promise them); the two lines of Sender.addResult are demanded exactly",
 ]
@@ -289,6 +296,125 @@ def random_schedules(seed, nmixed, nhyst, ngater, big):
 
 
 # ----------------------------------------------------------------------------------------------------------------------
+# relay part: schedules for the reserver / router hooks against the scripted relay
+# ----------------------------------------------------------------------------------------------------------------------
+def random_relay(r, k):
+    known = r.random() < 0.7
+    replies = []
+    while len(replies) < 16:
+        if r.random() < 0.5:
+            replies += [{"res": r.choice(["refused", "refused", "reset", "past", "noinfo"])} for _ in range(r.choice([1, 1, 2, 3, 5, 8, 12]))]
+        replies += [{"res": "ok", "ttl": r.choice([121, 125, 130, 150, 180, 240, 300, 600])} for _ in range(r.choice([1, 1, 2, 3]))]
+    stop = r.choice([20, 60, 150, 300, 400, 700, 900]) * 1000 + r.choice([0, 0, 250, 500, 777])
+    steps = [{"ev": "Start", "at": r.choice([0, 0, 5, 1000])}]
+    if r.random() < 0.8:
+        steps.append({"ev": "RStart", "at": r.choice([0, 0, 3, 2000])})
+    if not known and r.random() < 0.85:
+        steps.append({"ev": "RelaySet", "at": r.choice([1, 5000, 9999, 10000, 10001, 15000, 25000, 107999, 108000])})
+    for _ in range(r.choice([0, 1, 2, 3])):
+        steps.append({"ev": "Disc", "at": r.randrange(0, stop, 250) + r.choice([0, 0, 1, 100])})
+    for _ in range(r.choice([0, 0, 1, 2])):
+        t0 = r.randrange(0, stop, 500) + r.choice([0, 3])
+        steps.append({"ev": "Link", "at": t0, "up": False})
+        steps.append({"ev": "Link", "at": t0 + r.choice([100, 1000, 5000, 30000, 120000]), "up": True})
+    for _ in range(r.choice([2, 4, 8])):
+        base = r.choice([0, 108000, 216000, 120000, 228000, stop, stop + 120000, stop + 12000, r.randrange(0, stop + 130000)])
+        steps.append({"ev": "Route", "at": max(0, base + r.choice([-1, 0, 0, 1, 50, 11999, 12000, 12001])), "p": r.choice([3, 4])})
+    steps.append({"ev": "Stop", "at": stop})
+    steps.sort(key=lambda s: (s["at"], s["ev"] == "Stop"))
+    return [{"ev": "Cfg", "known": known, "keyset": k % 7, "replies": replies}] + steps
+
+
+def relay_schedules(seed, n):
+    r = vlib.rng(seed, "p2psender-relay")
+    return [random_relay(r, k) for k in range(n)]
+
+
+def relay_mutators():
+    def first(t, pred, start=0):
+        for k in range(start, len(t)):
+            if pred(t[k]):
+                return k
+        return None
+
+    def retry_early(t):
+        # the attempt after a failure 10 % of the shortest admissible delay too early (with everything after it)
+        for k, e in enumerate(t):
+            if e["ev"] == "RWarn":
+                j = first(t, lambda x: x["ev"] in ("Resv", "RWarn", "ROk"), k + 1)
+                if j is None or any(x["ev"] in ("Stop", "Link", "Disc") for x in t[k:j]):
+                    continue
+                d = (t[j]["t"] - e["t"]) // 4
+                if d <= 0:
+                    continue
+                for x in t[j:]:
+                    x["t"] -= d
+                    if x["ev"] == "Resv":
+                        x["exp"] -= d - d % 1000000
+                return t
+        return None
+
+    def no_reset(t):
+        # the first retry after a success comes as late as a third consecutive failure would
+        k = first(t, lambda e: e["ev"] == "ROk")
+        if k is None:
+            return None
+        w = first(t, lambda e: e["ev"] == "RWarn", k)
+        if w is None:
+            return None
+        j = first(t, lambda x: x["ev"] in ("Resv", "RWarn", "ROk"), w + 1)
+        if j is None or any(x["ev"] in ("Stop", "Link", "Disc") for x in t[w:j]) or t[j]["t"] - t[w]["t"] != 1000000:
+            return None
+        for x in t[j:]:
+            x["t"] += 1560000
+        return t
+
+    def late_refresh(t):
+        k = first(t, lambda e: e["ev"] == "RRefresh" and not any(x["ev"] == "RNoConn" and x["t"] == e["t"] for x in t))
+        if k is None:
+            return None
+        for x in t[k:]:
+            x["t"] += 1000000
+        return t
+
+    def attempt_after_stop(t):
+        k = first(t, lambda e: e["ev"] == "Stop")
+        j = first(t, lambda e: e["ev"] == "Resv")
+        if k is None or j is None or j > k:
+            return None
+        ev = dict(t[j])
+        ev["t"] = t[k]["t"]
+        t.insert(k + 1, ev)
+        return t
+
+    def route_flip(t):
+        k = first(t, lambda e: e["ev"] == "Route")
+        if k is None:
+            return None
+        t[k]["has"] = not t[k]["has"]
+        return t
+
+    def grant_ignored(t):
+        k = first(t, lambda e: e["ev"] == "ROk")
+        if k is None:
+            return None
+        t[k] = {"ev": "RWarn", "level": "warn", "t": t[k]["t"]}
+        return t
+
+    def exit_missing(t):
+        k = first(t, lambda e: e["ev"] == "Exit")
+        if k is None:
+            return None
+        del t[k]
+        return t
+
+    return [("retry before the back-off ended", retry_early), ("back-off not reset by a success", no_reset),
+            ("reservation refreshed 1 s late", late_refresh), ("a reservation requested after the context ended", attempt_after_stop),
+            ("relay route seen / not seen", route_flip), ("a granted reservation treated as a failure", grant_ignored),
+            ("the reserver hook never returned", exit_missing)]
+
+
+# ----------------------------------------------------------------------------------------------------------------------
 # binding self-tests: corrupt one recorded field / drop or move one event of an accepted trace -> must be rejected
 # ----------------------------------------------------------------------------------------------------------------------
 def mutators():
@@ -414,6 +540,15 @@ FINE_BAD = [("AddResultFine_ascoded_panic.cfg", "NoPanic", "index out of range i
             ("AddResultFine_ascoded_lost.cfg", "NoLostResult", "first results of two goroutines: one peerState is lost"),
             ("AddResultFine_ascoded_dupwarn.cfg", "WarnOnce", "a state change logged twice")]
 FINE_OK = ["AddResultFine_fixed_a.cfg", "AddResultFine_fixed_b.cfg", "AddResultFine_fixed_c.cfg"]
+RELAY_CONTROLS = [("RelayLoopMC_ctl_noReset.cfg", "BackoffGrows", "back-off not reset by a success"),
+                  ("RelayLoopMC_ctl_noGrow.cfg", "BackoffGrows", "retries not counted"),
+                  ("RelayLoopMC_ctl_noBackoff.cfg", "BackoffBetween", "retry at once"),
+                  ("RelayLoopMC_ctl_lateRefresh.cfg", "RefreshInTime", "refresh at the expiration"),
+                  ("RelayLoopMC_ctl_ignoreStop.cfg", "NoAttemptAfterStop", "loop ignores the ended context"),
+                  ("RelayLoopMC_ctl_routeAll.cfg", "RoutesOnlyDialed", "routes for every peer"),
+                  ("RelayLoopMC_ctl_slowRouter.cfg", "RoutesKept", "router period longer than the address TTL")]
+RELAY_QUICK = ["RelayLoopMC_quick.cfg", "RelayLoopMC_unknown.cfg", "RelayLoopMC_live.cfg"]
+RELAY_THOROUGH = ["RelayLoopMC_thorough.cfg", "RelayLoopMC_unknown.cfg", "RelayLoopMC_live.cfg"]
 QUICK_MC = ["P2PSenderMC_quick.cfg", "P2PSenderMC_hyst.cfg", "P2PSenderMC_time.cfg", "P2PSenderMC_proto.cfg", "P2PSenderMC_gater.cfg",
             "P2PSenderMC_live.cfg"]
 THOROUGH_MC = ["P2PSenderMC_stream.cfg", "P2PSenderMC_quick2.cfg", "P2PSenderMC_hyst6.cfg", "P2PSenderMC_hyst_thorough.cfg",
@@ -431,11 +566,14 @@ def design_check(o, tier, seed):
     gens = [("P2PSenderGen", "P2PSenderGen.cfg", dict(simulate="num=%d" % n, depth=300, seed=seed, workers=1)),
             ("P2PSenderGen", "P2PSenderGen_short.cfg", dict(simulate="num=%d" % n, depth=300, seed=seed + 1000, workers=1))]
     controls, fine_bad, fine_ok = CONTROLS, FINE_BAD, FINE_OK
+    rmains, rcontrols = (RELAY_THOROUGH if thorough else RELAY_QUICK), RELAY_CONTROLS
     if os.environ.get("VERIF_P2PSENDER_NOMC"):      # mutation experiments: the design check does not depend on the tree
-        mains, controls, fine_bad, fine_ok = [], [], [], []
+        mains, controls, fine_bad, fine_ok, rmains, rcontrols = [], [], [], [], [], []
     jobs = list(gens)
     jobs += [("P2PSenderMC", c, dict(workers=WORKERS or (4 if thorough else 2))) for c in mains]
+    jobs += [("RelayLoopMC", c, dict(workers=WORKERS or 2)) for c in rmains]
     jobs += [("P2PSenderMC", c, dict(workers=1)) for c, _, _ in controls]
+    jobs += [("RelayLoopMC", c, dict(workers=1)) for c, _, _ in rcontrols]
     jobs += [("AddResultFine", c, dict(workers=1)) for c, _, _ in fine_bad]
     jobs += [("AddResultFine", c, dict(workers=1)) for c in fine_ok]
     dirs = [vlib.scratch(o.pid, FAMILY) for _ in jobs]
@@ -457,11 +595,11 @@ def design_check(o, tier, seed):
         res = [f.result() for f in futs[len(gens):]]
         ex.shutdown()
         k = 0
-        for cfg in mains:
+        for cfg in list(mains) + list(rmains):
             vlib.require_mc_ok(res[k], cfg)
             o.add_mc("P2PSender/" + cfg[:-4], res[k])
             k += 1
-        for cfg, inv, what in list(controls) + list(fine_bad):
+        for cfg, inv, what in list(controls) + list(rcontrols) + list(fine_bad):
             r = res[k]
             k += 1
             got = r.violation
@@ -503,20 +641,36 @@ def stage(o, tier, seed):
     gen = [from_hist(h) for h in hists]
     rnd = random_schedules(seed, 2000 if thorough else 220, 800 if thorough else 100, 600 if thorough else 60, thorough)
     o.extra["p2psender_histories_by_tlc"] = len(gen)
+    if os.environ.get("VERIF_P2PSENDER_ONLY") == "relay":      # mutation experiments on relay.go / expbackoff
+        gen, rnd = gen[:5], rnd[:5]
     vlib.conformance(o, FAMILY, TRACE, TCFG, PKG, gen, tag="p2pgen", chunk=120, exec_timeout=900, tv_timeout=900)
     vlib.conformance(o, FAMILY, TRACE, TCFG, PKG, rnd, tag="p2prnd", chunk=120, exec_timeout=900, tv_timeout=900)
+    rel = relay_schedules(seed, 700 if thorough else 110)
+    vlib.conformance(o, FAMILY, "RelayLoopTrace", "RelayLoopTrace.cfg", PKG, rel, test="TestRelay", tag="p2prelay", chunk=60,
+                     exec_timeout=900, tv_timeout=900)
     if not os.environ.get("VERIF_P2PSENDER_NOPROBE"):
         race_probe(o, 20 if thorough else 4)
     join_design()
     tr = []
     for tag in ("p2pgen", "p2prnd"):
         tr += vlib.split_traces(vlib.read_ndjson(os.path.join(vlib.workdir(o.pid), "trace_%s.ndjson" % tag)))
-    if not o.violations:
+    if not o.violations and not os.environ.get("VERIF_P2PSENDER_ONLY"):
         ms = mutators()
         nself = len(o.selftests)
         vlib.binding_selftest(o, FAMILY, TRACE, TCFG, tr, ms)
         if len(o.selftests) - nself < len(ms):
             raise vlib.Infra("P2PSender binding self-test: some negative control found no applicable trace")
+        rtr = vlib.split_traces(vlib.read_ndjson(os.path.join(vlib.workdir(o.pid), "trace_p2prelay.ndjson")))
+        rms = relay_mutators()
+        nself = len(o.selftests)
+        vlib.binding_selftest(o, FAMILY, "RelayLoopTrace", "RelayLoopTrace.cfg", rtr, rms)
+        if len(o.selftests) - nself < len(rms):
+            raise vlib.Infra("RelayLoop binding self-test: some negative control found no applicable trace")
+        rev = [e for t in rtr for e in t]
+        o.extra["relay_reservations_requested"] = sum(1 for e in rev if e["ev"] == "Resv")
+        o.extra["relay_failures"] = sum(1 for e in rev if e["ev"] == "RWarn")
+        o.extra["relay_refreshes"] = sum(1 for e in rev if e["ev"] == "RRefresh")
+        o.extra["relay_route_samples"] = sum(1 for e in rev if e["ev"] == "Route")
     ev = [e for t in tr for e in t]
     cnt = lambda p: sum(1 for e in ev if p(e))
     o.extra["p2p_calls"] = cnt(lambda e: e["ev"] == "Call")
